@@ -157,4 +157,9 @@ def c13_c16(which):
             if any(float(p.initial_value(s)) != 0.0 for s in p.state_space): R.fail("c16.initial_value_zero", "initial value estimate is not zero", dict(problem=nm))
     return R
 
-{"c13": lambda: c13_c16("c13"), "c16": lambda: c13_c16("c16"), "c14": lambda: c15_c14("c14"), "c15": lambda: c15_c14("c15")}[a.prop]().write(a.out)
+try: rep = {"c13": lambda: c13_c16("c13"), "c16": lambda: c13_c16("c16"), "c14": lambda: c15_c14("c14"), "c15": lambda: c15_c14("c15")}[a.prop]()
+except Exception as ex:            # an exception escaping from the code under test is a failing case, not a harness crash
+    import traceback
+    rep = Report(f"{a.prop}_runtime", a.prop.upper(), "aborted"); rep.evaluations = 1
+    rep.fail(f"{a.prop}.code_under_test_raised", f"{type(ex).__name__} raised by the code under test", {"see": "traceback"}, traceback.format_exc()[-900:], "no exception")
+rep.write(a.out)
